@@ -166,6 +166,18 @@ def C14(tier, seed):
                            "of the skip optimisation), stored accumulator of the end group or the adjacent one in trade direction, major-swap timestamp, trade-enable time, zero control factor = static"}
 
 
+def C17(tier, seed):
+    jobs = []
+    shards, worlds, attempts = (4, 4, 120) if tier == "quick" else (16, 12, 400)
+    for s_ in range(shards):
+        jobs.append({"name": f"twohop_{s_}", "args": ["twohop", "--seed", str(seed * 100 + s_), "--worlds", str(worlds), "--attempts", str(attempts)]})
+    return {"active": ["C17"], "drivers": jobs, "models": [],
+            "must_exercise": {"two_hop_swap": 20, "two_hop_swap_v2": 20},
+            "explanation": "three pools sharing mints pairwise (static and adaptive fees, SPL and Token-2022): every two-hop attempt (all direction combinations, both modes, price limits on either leg, "
+                           "thresholds at the realised amount and one either side, same-pool and mismatching-mint attempts) is also executed on a copy of the bank as its two single swaps; TLC requires, "
+                           "for a successful two-hop: both legs succeed alone, intermediate amounts match, every account of the two banks is identical, trader pays leg one / receives leg two / nets zero"}
+
+
 def C16(tier, seed):
     drivers = hist_jobs("hist_t22fee_", seed, 5 if tier == "quick" else 16, 4 if tier == "quick" else 40, 200 if tier == "quick" else 300, "t22fee")
     drivers += fn_jobs("tfee", tier, seed, 400, 8000, shards_q=2, shards_t=8)
@@ -226,4 +238,4 @@ def C08(tier, seed):
     return p
 
 
-PLANS = {"C01": C01, "C02": C02, "C03": C03, "C04": C04, "C14": C14, "C15": C15, "C16": C16, "C05": C05, "C06": C06, "C07": C07, "C11": C11, "C12": C12, "C13": C13, "C08": C08, "C09": C09}
+PLANS = {"C01": C01, "C02": C02, "C03": C03, "C04": C04, "C14": C14, "C15": C15, "C16": C16, "C17": C17, "C05": C05, "C06": C06, "C07": C07, "C11": C11, "C12": C12, "C13": C13, "C08": C08, "C09": C09}
